@@ -61,7 +61,7 @@ Proof.
         apply Nat.ltb_ge in E. unfold rank, binrank.
         destruct (prec_range e2).
         assert (bin_prec o <= 13) by (destruct o; cbn; lia). lia.
-      * apply ender_wrap; exact Ea.
+      * apply ender_ender2. apply ender_wrap; exact Ea.
       * apply starter_wrap; exact Stb.
       * apply wrap_nonnil; exact Na.
     + destruct (ender_wrap (Nat.ltb (prec e2) (S (bin_prec o))) (rootlab e2) _ Eb) as [pre [t [Hp Ht]]].
@@ -152,6 +152,7 @@ Proof.
     - reflexivity.
     - exact Hd.
     - intros r a Hr. apply quiet_closer; [right; right; reflexivity|lia].
+    - intros _ a. apply quiet_closer; [right; right; reflexivity|lia].
     - intros _ a. apply quiet_closer; [right; right; reflexivity|lia].
     - unfold mkafter. apply cont_quiet; [exact Hrk|].
       intros r Hr. apply quiet_closer; [right; right; reflexivity|exact Hr]. }
